@@ -418,6 +418,14 @@ static void spline_monitor(Report & rep)
       for (double t : times) {
         Tangent vel, acc;
         const G g = x.lib(t, vel, acc);
+        {
+          // the optional outputs do not influence the value (or each other): value-only and value+velocity calls
+          Tangent v1;
+          const G g0 = x.lib(t), g1 = x.lib(t, v1);
+          L w = std::max(orc::maxabs(elemL(l, g0) - elemL(l, g)), orc::maxabs(elemL(l, g1) - elemL(l, g)));
+          w   = std::max(w, orc::maxabs(toL(v1) - toL(vel)));
+          rep.judge(T + ".optional_outputs_consistent", what, w == w ? w : INFINITY, 0, [&]() { return JObj().raw("run", det()).num("t", t).done(); });
+        }
         const bool outside = t < 0 || L(t) > L(x.lib.t_max());
         L dk = 1e300L;
         for (L k : kn) dk = std::min(dk, fabsl(L(t) - k));
